@@ -13,6 +13,8 @@ import RsjProofs.JsonParse
 import RsjProofs.JsonNumber
 import RsjProofs.JsonFields
 import RsjProofs.JsonKeys
+import RsjProofs.JsonEscapeTable
+import RsjProofs.JsonFuel
 namespace Rsj.Json
 
 /-- **C05 escape_is_rfc8259.**  The text `escape_string_json` writes between the
@@ -32,6 +34,19 @@ theorem C05_escape_roundtrip (s rest : Str) :
     lexString (escape s ++ rest) = .ok (some (s, rest)) :=
   lexString_escape s rest
 
+/-- **C05 escape_table_covers_controls** (generated obligation).  In the table
+    extracted from `escape_string_json` in manifest.rs
+    (`RsjModel/EscapeTable.lean`, regenerated on every run), every control
+    character below U+0020 is matched by an arm, i.e. never pushed raw.  (This is
+    the statement the tree with the `'\u{19}'` bound failed.) -/
+theorem C05_escape_table_covers_controls : ∀ c, c < 0x20 → (tableLookup c).isSome = true :=
+  table_covers_controls
+
+/-- The model escaper the other theorems talk about IS the extracted table:
+    for every code point, `escapeChar` equals first-match lookup in it. -/
+theorem C05_escape_model_is_table (c : Nat) : escapeChar c = tableEscape c :=
+  escapeChar_eq_table c
+
 /-- **C05 manifest_parse_roundtrip.**  For every format whose indent and newline
     are JSON whitespace and whose separators are whitespace around `:` / `,`
     (`FmtOK`), and every value whose numbers are number tokens and whose objects
@@ -41,6 +56,12 @@ theorem C05_escape_roundtrip (s rest : Str) :
 theorem C05_manifest_parse_roundtrip {f : Fmt} (hf : FmtOK f) (v : JVal) (hv : ValOK v) :
     parseJson (manifest f 0 v) = .ok v :=
   parseJson_manifest hf v hv
+
+/-- The fuel of the model's outer loop is a proof device only: `parse_json`'s
+    outer loop consumes a character per iteration, so "out of fuel" is never the
+    outcome — the model parser is total with the implementation's outcomes. -/
+theorem C05_parse_fuel_unreachable (s : Str) : parseJson s ≠ .error .fuel :=
+  parseJson_nf s
 
 /-- The number hypothesis of the round trip is met by every RFC 8259 number
     (`[-] int [frac] [exp]`, in particular by everything `Display for f64` prints:
@@ -159,7 +180,13 @@ open Rsj.Json in
 open Rsj.Json in
 #print axioms C05_escape_roundtrip
 open Rsj.Json in
+#print axioms C05_escape_table_covers_controls
+open Rsj.Json in
+#print axioms C05_escape_model_is_table
+open Rsj.Json in
 #print axioms C05_manifest_parse_roundtrip
+open Rsj.Json in
+#print axioms C05_parse_fuel_unreachable
 open Rsj.Json in
 #print axioms C05_number_tokens
 open Rsj.Json in
